@@ -149,6 +149,13 @@ def render_v3000(mol, rng=None, name="sim"):
         if "mass" in a:
             props.append(f"MASS={a['mass']}")
         if rng is not None:
+            # other keywords the format defines, and (legal for a reader that keeps
+            # the last one) a property written twice
+            if rng.random() < 0.12:
+                props.append(rng.choice(["CFG=0", "VAL=1", "HCOUNT=0", "EXACHG=1", "EXACHG=0", "STBOX=0", "INVRET=0", "SUBST=1", "UNSAT=0", "RBCNT=0", "ATTCHPT=1", "CLASS=AA", "SEQID=1"]))
+            if props and rng.random() < 0.05:
+                k = rng.choice(props).split("=")[0]
+                props.append(f"{k}={rng.choice([1, 2, 3])}")
             rng.shuffle(props)
         L.append(" ".join([s] + props))
     L.append("M  V30 END ATOM")
@@ -262,6 +269,18 @@ def malformed_molfiles(rng, valid_texts):
         else:
             i = rng.randrange(len(lines))
             lines[i] = lines[i] + "-"
+        out.append("\n".join(lines))
+    for t in valid_texts:
+        # several broken property tokens on one atom line (which one is reported?)
+        lines = t.split("\n")
+        idx = [i for i, l in enumerate(lines) if _V3ATOM.match(l)]
+        if not idx:
+            continue
+        i = rng.choice(idx)
+        m = _V3ATOM.match(lines[i])
+        core = m.group(1) + m.group(2) + " ".join(m.group(3).split(" ")[:5])
+        bad = rng.sample(["CHG", "CHG=x", "MASS=", "MASS=y", "RAD=z", "RAD", "CHG=1.5", "MASS=-"], rng.randint(2, 3))
+        lines[i] = core + " " + " ".join(bad)
         out.append("\n".join(lines))
     return out
 
@@ -507,7 +526,7 @@ def build_pool_molfiles(master, repo, n_corpus, n_random, n_big, n_bad):
                 pool.samesize[tid] = pool.add("T", v, pool.mol_valid, src="same-size-variant", of=tid)
     valid = [pool.texts[t] for t in pool.mol_valid]
     bad = malformed_molfiles(rng, [rng.choice(valid) for _ in range(max(0, n_bad - 3))]) if valid else malformed_molfiles(rng, [])
-    for t in bad[:n_bad]:
+    for t in bad:
         pool.add("T", t, pool.mol_bad, src="malformed")
     return pool
 
